@@ -28,7 +28,7 @@ var primSet = map[string]bool{
 	"(*sync.Cond).Wait": true, "(*sync.Cond).Broadcast": true, "(*sync.Cond).Signal": true, "sync.NewCond": true,
 	"(*sync.Pool).Get": true, "(*sync.Pool).Put": true,
 	"time.Now": true, "time.NewTicker": true, "(*time.Ticker).Stop": true, "(time.Time).Add": true, "(time.Time).Before": true, "(time.Time).IsZero": true,
-	"context.WithCancel": true, "runtime.NumCPU": true,
+	"context.WithCancel": true, "context.Background": true, "runtime.NumCPU": true,
 	"fmt.Errorf": true, "fmt.Sprintf": true, "errors.New": true,
 	"reflect.ValueOf": true, "(reflect.Value).Pointer": true,
 	"encoding/json.Marshal": true, "encoding/json.Unmarshal": true,
@@ -264,6 +264,9 @@ func (st *State) primitive(f *ssa.Function, args []Val, site ssa.Instruction) (V
 		st.assume(tEq(app("parentOf", SInt, ctx), parent))
 		res := f.Signature.Results()
 		return TupleV{[]Val{TV{ctx, res.At(0).Type()}, TV{cancel, res.At(1).Type()}}}, true
+	case "context.Background":
+		vc.strLits["glob.context.Background"] = "tid"
+		return TV{Term{smtIdent("glob.context.Background"), SInt}, f.Signature.Results().At(0).Type()}, true
 	case "runtime.NumCPU":
 		c := st.declare("ncpu", SInt)
 		st.assume(tAnd(tGe(c, tInt(1)), tLe(c, tInt(1<<20))))
